@@ -22,3 +22,26 @@ Fixpoint tune_seq (lam : R) (k : Z) (star : R) (windows : list (Z * Z)) : list R
   | [] => []
   | (a, n) :: r => let t := tune_temp lam k (hat_acc a n) star in Rmin t 1 :: tune_seq t (k + 1) star r
   end.
+
+(* the unclipped parameters (scale_temp / lambd) of the same run; the scales are their clipped values *)
+Fixpoint tune_temps (lam : R) (k : Z) (star : R) (windows : list (Z * Z)) : list R :=
+  match windows with
+  | [] => []
+  | (a, n) :: r => let t := tune_temp lam k (hat_acc a n) star in t :: tune_temps t (k + 1) star r
+  end.
+
+(* ---- which acceptance flags one tune(skip_len = T, update_count = i) call reads.  _acc is the acceptance history of the
+   sampler: the initial 1 followed by the flag of every completed iteration (per component for CWMH).
+     MH, PCN :  _acc[-T:]            (the last T entries; the whole list when it is shorter)
+     CWMH    :  _acc[i*T:(i+1)*T]    (the i-th block of T entries)                                          *)
+Definition win_last (T : nat) (acc : list Z) : list Z := skipn (length acc - T) acc.
+Definition win_slice (T i : nat) (acc : list Z) : list Z := firstn T (skipn (i * T) acc).
+Definition zsum (w : list Z) : Z := fold_right Z.add 0%Z w.
+Definition win_rate (w : list Z) : R := hat_acc (zsum w) (Z.of_nat (length w)).       (* np.mean of the window *)
+Definition tune_call (cw : bool) (T i : nat) (acc : list Z) (lam star : R) : R :=
+  tune_temp lam (Z.of_nat i + 1) (win_rate (if cw then win_slice T i acc else win_last T acc)) star.
+
+(* used by the generated cases: the window the model selects from the observed history has `a` accepted flags out of `n` *)
+Definition check_window (cw : bool) (T i : nat) (acc : list Z) (a n : Z) : bool :=
+  let w := if cw then win_slice T i acc else win_last T acc in
+  Z.eqb (zsum w) a && Z.eqb (Z.of_nat (length w)) n.
